@@ -19,12 +19,13 @@ T={
  "C14":("exploration","runtime monitoring: per-tx NFT state probe (all classes, tokens, owners, supplies, owner listings via the module's queries) against a reference ownership map, hostile actors"),
  "C15":("exploration","runtime monitoring: per-tx MT state probe incl. raw balance-store walk against an arbitrary-precision reference ledger, boundary/overflow amounts"),
  "C20":("exploration","runtime monitoring of the two generated code families in one process: exhaustive registry/descriptor walk (gogoproto registry vs protobuf-go registry, every .proto under proto/irismod, every Msg signer via the application's signing context) + descriptor-driven cross-family byte round trips; thorough tier under the checkptr sanitizer"),
+ "C16":("exploration","runtime monitoring: reflection-generated boundary parameter sets judged by the module's own Validate(), applied through the authority handler on dropped branches of a prepared all-modules chain, differential battery of every message type (stored params vs candidate) and begin/end blockers under recover(); genesis path on fresh applications; real txs for the authority clause incl. one real governance proposal"),
  "C17":("exploration","runtime monitoring: per-tx/per-end-block feed probe (value list, state index, request context) against a reference that appends one exact-rational aggregate per completed batch, hostile providers and strangers"),
  "C18":("exploration","runtime monitoring: per-block due-height model over the raw result keys (write-once), pending queue and oracle-request records; value format/PRNG re-derivation from observed chain data; pure PRNG probe"),
  "C19":("exploration","runtime monitoring: response-id uniqueness monitor, query read-back of every id (per block, periodic, final) and block-to-block raw store diff (append-only)"),
 }
 NA={}
-FIXES=["3207d3e ff58504 (C12 farm queue on import, token genesis validation)","65bfa74 (C12 crisis genesis order)","45bb3a0 (C09 EditToken)","1a3d839 007a7e9 (C10 LossLessSwap, swap target)","9199708 (C04 HTLC to escrow)","da70e52 (C12 HTLC timestamp 0 genesis)","3e7d2da (C12 oracle import history)","1df21f2 (C05 farm debt rounding)","59c32e3 (C06 farm AdjustPool)","8b62807 d0b1358 d156cb8 (C07 service fees)","834e3f7 92557ec (C08 service schedule)","5aec873 (C11 MT export order)","b770505 (C11 oracle host clock)","82dca39 (C02 double-hop swap settlement)","4b78834 (C17 oracle Max of all-negative responses)","c092f06 (C17 oracle Avg overflow)"]
+FIXES=["625d429 0183829 (C16 farm/token params validation)","3207d3e ff58504 (C12 farm queue on import, token genesis validation)","65bfa74 (C12 crisis genesis order)","45bb3a0 (C09 EditToken)","1a3d839 007a7e9 (C10 LossLessSwap, swap target)","9199708 (C04 HTLC to escrow)","da70e52 (C12 HTLC timestamp 0 genesis)","3e7d2da (C12 oracle import history)","1df21f2 (C05 farm debt rounding)","59c32e3 (C06 farm AdjustPool)","8b62807 d0b1358 d156cb8 (C07 service fees)","834e3f7 92557ec (C08 service schedule)","5aec873 (C11 MT export order)","b770505 (C11 oracle host clock)","82dca39 (C02 double-hop swap settlement)","4b78834 (C17 oracle Max of all-negative responses)","c092f06 (C17 oracle Avg overflow)"]
 checks=[]
 for p in props:
     i=p['id']
